@@ -124,6 +124,17 @@ def main():
     chk.machinery("TLC failed: %s" % r.out[-600:])
     return chk.finish()
   pairs = {k: d for k, d in dumps.items() if len(d["scn"]["subs"]) == 2}
+  # pairs in which a subgraph has no operators (identity signature) or returns an input as it is
+  c2 = configs.cfg(2, ["FC", "FIXT"], [configs.NOQ, M("SRQ", "a8a", "w8c"), M("WO", "-", "w8c")], [configs.NOQ, M("SRQ", "a8a", "w8c")], configs.IO_2,
+                   share="none", max_sub=2, passthru=True)
+  r2, dumps2 = pipecheck.design_run("C19_pairs_passthru", c2, ["InvTopo", "InvWellFormed"], timeout=7200)
+  if r2.error or r2.rc not in (0, 12):
+    chk.machinery("TLC failed: %s" % r2.out[-600:])
+    return chk.finish()
+  for k, d in dumps2.items():
+    if len(d["scn"]["subs"]) == 2 and any(not sub["ops"] or set(sub["gins"]) & set(sub["gouts"]) for sub in d["scn"]["subs"]):
+      pairs.setdefault(k, d)
+      dumps.setdefault(k, d)
   # random larger pairs through the specification's machine
   nrand = 60 if args.tier == "quick" else 2000
   rand = [rgen.gen(args.seed * 611953 + i, 2, 5, nsub=2) for i in range(nrand)]
@@ -190,7 +201,7 @@ def main():
     if v is not None and not all(v[cname] for cname in ("inrange", "topo", "single", "names", "skelops", "skelio", "skelsig", "skeltyp", "modes")):
       chk.violation("graph predicates false on the pair's result", {"property": "C19", "scenario": items[i][0], "clause": "graph", "verdict": v})
   chk.cov.update({
-      "states": r.distinct + rs.distinct + rfp.distinct, "transitions": r.generated + rs.generated + rfp.generated,
+      "states": r.distinct + r2.distinct + rs.distinct + rfp.distinct, "transitions": r.generated + r2.generated + rs.generated + rfp.generated,
       "traces_validated_against_impl": ncmp, "pairs_enumerated": len(pairs), "design_level_pairs_compared": ndesign,
       "evaluations": ncmp, "distinct_nontrivial": sum(1 for o in results if o.get("outcome") and o["outcome"][0] == "done"),
       "rule": "two-subgraph scenarios (independent graphs, equal structure with different names, insertion-heavy subgraph 0 beside a non-trivial "
